@@ -63,6 +63,9 @@ fn g_client_independent(r: &mut Rng) -> Scenario {
 fn g_client_trace(r: &mut Rng) -> Scenario {
     Scenario::Client(client::gen(r, client::Focus::Trace))
 }
+fn g_client_long(r: &mut Rng) -> Scenario {
+    Scenario::Client(client::gen(r, client::Focus::Long))
+}
 fn g_client_faults(r: &mut Rng) -> Scenario {
     Scenario::Client(client::gen(r, client::Focus::Faults))
 }
@@ -87,6 +90,7 @@ sgen!(g_server_extreme, Extreme);
 sgen!(g_server_independent, Independent);
 sgen!(g_server_faults, Faults);
 sgen!(g_server_parked, Parked);
+sgen!(g_server_long, Long);
 
 fn g_bytes_roundtrip(r: &mut Rng) -> Scenario {
     Scenario::Bytes(bytes::gen_roundtrip(r))
@@ -308,19 +312,19 @@ pub fn checks() -> Vec<CheckSpec> {
             "service chains of depth 1-3 over mixed real links with the root call abandoned at a time or when the handler at node k starts (cascade rule at the first unstalled idle point); cancel positioned before/after handler start, completion, response buffering and write; 1-8 concurrent requests; limit on/off; sink stalls",
             SERVER_REAL, SERVER_STUB, &[]),
         spec("C05", "exploration",
-            vec![gen("client.deadlines", 3, g_client_deadlines), gen("client.general", 1, g_client_general)],
+            vec![gen("client.deadlines", 30, g_client_deadlines), gen("client.general", 10, g_client_general), gen("client.long", 1, g_client_long)],
             q, t,
             "deadline classes {expired,0,1,2,5,20,50,1000 ms ...} x queueing delay (capacity 1, stalls) x replies at D-2,D-1,D,D+1,never; virtual clock; non-trivial = a fault/probe fired",
             CLIENT_REAL, CLIENT_STUB,
             &["timer granularity 1 ms modelled as 2 ms slack"]),
         spec("C06", "exploration",
-            vec![gen("server.deadlines", 3, g_server_deadlines), gen("server.general", 1, g_server_general), gen("server.limit", 1, g_server_limit)],
+            vec![gen("server.deadlines", 30, g_server_deadlines), gen("server.general", 10, g_server_general), gen("server.limit", 10, g_server_limit), gen("server.long", 1, g_server_long)],
             q, t,
             "request deadlines {expired,0,1,2,5,10,20,50 ms} x handlers finishing at D-2..D+1/never x limit on/off x sink stalls; virtual clock",
             SERVER_REAL, SERVER_STUB,
             &["timer granularity 1 ms modelled as 2 ms slack"]),
         spec("C07", "exploration",
-            vec![gen("bytes.roundtrip", 2, g_bytes_roundtrip), gen("server.general", 1, g_server_general), gen("server.deadlines", 1, g_server_deadlines), gen("e2e.deadlines", 3, g_e2e_deadlines), gen("e2e.general", 1, g_e2e_general)],
+            vec![gen("bytes.roundtrip", 2, g_bytes_roundtrip), gen("server.general", 1, g_server_general), gen("server.deadlines", 1, g_server_deadlines), gen("e2e.deadlines", 3, g_e2e_deadlines), gen("e2e.general", 1, g_e2e_general), gen("client.general", 1, g_client_general)],
             q / 6, t / 6,
             "request deadlines 0 ms .. 1 h (including already expired at encode time) through JSON and bincode over a SimPipe with virtual latency and through the in-memory transport; the decoded / handler-observed deadline is compared with the caller's deadline and the measured transit time; JSON requests that omit the deadline must get decode time + 10 s",
             &["tarpc::context deadline (de)serialisation, serde_transport, wire types (real)", "BaseChannel / Requests / execute passing the request context to the handler (real)"],
